@@ -322,14 +322,23 @@ func (r *rw) syncCall(c *ast.CallExpr, deferred bool) []ast.Stmt {
 		return nil
 	}
 	mv := func(name string) ast.Expr { return &ast.SelectorExpr{X: se.X, Sel: ast.NewIdent(name)} }
+	// the mutex's identity (its address) lets the scheduler model FIFO hand-off per lock
+	key := func() ast.Expr {
+		if t := r.info.TypeOf(se.X); t != nil {
+			if _, isPtr := t.Underlying().(*types.Pointer); isPtr {
+				return se.X
+			}
+		}
+		return &ast.UnaryExpr{Op: token.AND, X: se.X}
+	}
 	var call *ast.CallExpr
 	switch {
 	case (typ == "Mutex" || typ == "RWMutex") && m == "Lock":
-		call = r.call("Acquire", intLit(r.newSite(c.Pos(), "lock")), mv("TryLock"))
+		call = r.call("AcquireK", intLit(r.newSite(c.Pos(), "lock")), key(), mv("TryLock"))
 	case typ == "RWMutex" && m == "RLock":
-		call = r.call("Acquire", intLit(r.newSite(c.Pos(), "lock")), mv("TryRLock"))
+		call = r.call("AcquireK", intLit(r.newSite(c.Pos(), "lock")), key(), mv("TryRLock"))
 	case (typ == "Mutex" || typ == "RWMutex") && (m == "Unlock" || m == "RUnlock"):
-		call = r.call("Release", intLit(r.newSite(c.Pos(), "unlock")), mv(m))
+		call = r.call("ReleaseK", intLit(r.newSite(c.Pos(), "unlock")), key(), mv(m))
 	case typ == "WaitGroup" && m == "Wait":
 		call = r.call("BlockOn", intLit(r.newSite(c.Pos(), "wait")), mv("Wait"))
 	case typ == "Cond":
